@@ -301,7 +301,115 @@ var solvers = []solverSpec{
 
 var solverSem = make(chan struct{}, 16)
 
+// cvc5ConstArrays rewrites `((as const (Array K V)) T)` whose default T is not a value (cvc5 accepts only values
+// there; z3 accepts any term) into a fresh array constant with the axiom "every entry is T". Same meaning.
+func cvc5ConstArrays(q string) string {
+	if !strings.Contains(q, "((as const ") {
+		return q
+	}
+	declared := map[string]bool{}
+	for _, m := range regexp.MustCompile(`\((?:declare-const|declare-fun|define-fun) ([^\s()]+)`).FindAllStringSubmatch(q, -1) {
+		declared[m[1]] = true
+	}
+	cache := map[string]string{}
+	n := 0
+	var out strings.Builder
+	for _, line := range strings.SplitAfter(q, "\n") {
+		var pre strings.Builder
+		for {
+			i := strings.Index(line, "((as const ")
+			found := false
+			for i >= 0 {
+				// sort
+				j := i + len("((as const ")
+				k := sexprEnd(line, j)
+				if k < 0 || k >= len(line) || line[k] != ')' {
+					break
+				}
+				sort := line[j:k]
+				t0 := k + 1
+				for t0 < len(line) && line[t0] == ' ' {
+					t0++
+				}
+				t1 := sexprEnd(line, t0)
+				if t1 < 0 || t1 >= len(line) || line[t1] != ')' {
+					break
+				}
+				term := line[t0:t1]
+				nonValue := false
+				for _, tok := range regexp.MustCompile(`[^\s()]+`).FindAllString(term, -1) {
+					if declared[tok] {
+						nonValue = true
+					}
+				}
+				if nonValue && strings.HasPrefix(sort, "(Array ") {
+					key := sort + "|" + term
+					name, ok := cache[key]
+					if !ok {
+						n++
+						name = fmt.Sprintf("carr!%d", n)
+						cache[key] = name
+						ks := sort[len("(Array "):sexprEnd(sort, len("(Array "))]
+						fmt.Fprintf(&pre, "(declare-const %s %s)\n(assert (forall ((k!c %s)) (! (= (select %s k!c) %s) :pattern ((select %s k!c)))))\n", name, sort, ks, name, term, name)
+					}
+					line = line[:i] + name + line[t1+1:]
+					found = true
+					break
+				}
+				nx := strings.Index(line[i+1:], "((as const ")
+				if nx < 0 {
+					break
+				}
+				i = i + 1 + nx
+			}
+			if !found {
+				break
+			}
+		}
+		out.WriteString(pre.String())
+		out.WriteString(line)
+	}
+	return out.String()
+}
+
+// sexprEnd returns the index just past the S-expression (or atom) starting at s[i].
+func sexprEnd(s string, i int) int {
+	if i >= len(s) {
+		return -1
+	}
+	if s[i] != '(' {
+		j := i
+		for j < len(s) && s[j] != ' ' && s[j] != ')' && s[j] != '(' && s[j] != '\n' {
+			j++
+		}
+		return j
+	}
+	depth := 0
+	for j := i; j < len(s); j++ {
+		switch s[j] {
+		case '(':
+			depth++
+		case ')':
+			depth--
+			if depth == 0 {
+				return j + 1
+			}
+		}
+	}
+	return -1
+}
+
 func runSolver(sp solverSpec, file string, timeoutS, seed int, ctx context.Context) (string, string, float64) {
+	if sp.name == "cvc5" {
+		if data, err := os.ReadFile(file); err == nil {
+			if q2 := cvc5ConstArrays(string(data)); q2 != string(data) {
+				f2 := strings.TrimSuffix(file, ".smt2") + ".cvc5.smt2"
+				if os.WriteFile(f2, []byte(q2), 0o644) == nil {
+					file = f2
+				}
+			}
+		}
+	}
 	args := sp.args(file, timeoutS, seed)
 	cctx, cancel := context.WithTimeout(ctx, time.Duration(timeoutS+2)*time.Second)
 	defer cancel()
